@@ -11,9 +11,15 @@ ASSUMPTIONS = ["as in C04-C09"]
 
 
 def queries(tier):
+    import re
+
     def pred(sk, q):
-        return bool(__import__("re").search(r"[SRV]\([0-9, ]*,0\)", sk))
-    qs = _cross.pick(tier, pred, 20 if tier == "quick" else 100000)
+        # a non-blocking operation, or one of the state changes the property lists (buffer resize, peer loss, cancel, unsubscribe, option change):
+        # the readiness <=> pollable equivalence is asserted after every event
+        return bool(re.search(r"[SRV]\([0-9, ]*,0\)", sk)) or bool(re.search(r"\b(C|B|Q|N|P|X|K|U)\(", sk))
+    prefer = (r"\bB\(\d\).* C\(", r"C\(\d\) [SRV]\([0-9, ]*,0\)", r"\b(B|Q)\(\d\).* [SRV]\([0-9, ]*,0\)", r"X\(\d\) [SRV]\([0-9, ]*,0\)", r"N\(.* R\([0-9, ]*,0\)",
+              r"S\(\d,0\).* Q\(\d,\d\).* S\(\d,0\)")
+    qs = _cross.pick(tier, pred, 26 if tier == "quick" else 100000, prefer=prefer)
     for q in C18.queries(tier):
         if "msgq-aio" in q.name:
             qs.append(q)
